@@ -35,6 +35,48 @@ def close_to_numpy(got, want):
     return bool(np.allclose(got, want, rtol=1e-9, atol=0, equal_nan=True))
 
 
+def py_is_topo(deps, order):
+    """independent oracle: order lists every key once, each after its dependencies"""
+    seen = set()
+    for k in order:
+        if k in seen or k not in deps or any(d not in seen for d in deps[k]):
+            return False
+        seen.add(k)
+    return len(seen) == len(deps)
+
+
+def istopo_pair(deps, order, expect=None):
+    """request for the Lean checker: keys numbered by sorted repr"""
+    idx = {k: i for i, k in enumerate(sorted(deps, key=repr))}
+    from harness.core import f_list
+
+    d = ";".join(f_list(sorted(idx[x] for x in deps[k] if x in idx)) if all(x in idx for x in deps[k]) else "999999"
+                 for k in sorted(deps, key=repr)) or "-"
+    o = f_list([idx.get(k, 999998) for k in order])
+    want = py_is_topo(deps, order) if expect is None else expect
+    return (f"gr.istopo {d} {o}", "ok 1" if want else "ok 0")
+
+
+class OrderLog:
+    """dask callback recording the graph a stock scheduler ran and the order tasks finished in"""
+
+    def __init__(self):
+        from dask.callbacks import Callback
+
+        self.order = []
+        self.dsk = None
+        log = self
+
+        class CB(Callback):
+            def _start(self, dsk):
+                log.dsk = dsk
+
+            def _posttask(self, key, result, dsk, state, id):
+                log.order.append(key)
+
+        self.cb = CB()
+
+
 def run_case(ctx, case, count=True):
     """case: {prog, roots, optimize, orders:int, oseed:int}.  Returns list of (sig, detail) or None (skipped)."""
     import dask
@@ -99,6 +141,14 @@ def run_case(ctx, case, count=True):
                 mutations = []
                 outcome = ("raise", f"{type(e).__name__}: {str(e)[:200]}")
             outcomes.append((oname, oseed, outcome))
+            pairs = getattr(ctx, "c10_pairs", None)
+            if pairs is not None and outcome[0] == "ok" and len(tasks) <= 120 and len(pairs) < ctx.c10_limit:
+                deps = {k: set(t.dependencies) for k, t in tasks.items()}
+                order = list(values)
+                pairs.append(istopo_pair(deps, order, expect=True))  # the order the executor used
+                bad = order[:]
+                ctx.rng.shuffle(bad)
+                pairs.append(istopo_pair(deps, bad))  # control: a random permutation
             for tk, dk in mutations[:3]:
                 fails.append(("dependency-mutated", f"order {oname}/{oseed}: task {tk!r} changed the value of its dependency {dk!r}"))
             fails += sources_changed(f"during serial execution (order {oname}/{oseed})")
@@ -135,7 +185,21 @@ def run_case(ctx, case, count=True):
                 fails.append(("order-dependent-result", f"{r}: instrumented execution vs compute(sync): {np.asarray(a).ravel()[:8].tolist()} vs {np.asarray(c).ravel()[:8].tolist()}"))
             for i in range(case.get("threads", 2)):
                 try:
-                    t = x.compute(scheduler="threads", num_workers=4)
+                    log = OrderLog()
+                    with log.cb:
+                        t = x.compute(scheduler="threads", num_workers=4)
+                    pairs = getattr(ctx, "c10_pairs", None)
+                    if pairs is not None and log.dsk is not None and len(log.order) <= 120 and len(pairs) < ctx.c10_limit:
+                        sched = graphs.to_tasks(dict(log.dsk))
+                        deps = {k: set(tk.dependencies) for k, tk in sched.items()}
+                        # dask's threaded scheduler: the order in which tasks FINISHED must be a topological order
+                        # (data nodes are preloaded by the scheduler, they never reach posttask)
+                        # and tasks no output needs are culled: the sub-graph of what ran must be closed and ordered)
+                        logged = set(log.order)
+                        need = {d for k in log.order for d in deps.get(k, ())}
+                        pre = sorted((k for k, d in deps.items() if not d and k not in logged and k in need), key=repr)
+                        ran = set(pre) | logged
+                        pairs.append(istopo_pair({k: deps[k] for k in ran if k in deps}, pre + log.order, expect=True))
                 except Exception as e:
                     fails.append(("order-dependent-outcome", f"{r}: compute(threads) raises {type(e).__name__}: {str(e)[:200]}"))
                     break
@@ -241,8 +305,10 @@ def run(ctx, replay=None):
             ctx.fail(sig, case, detail)
         return
     norders = ctx.scale(3, 8)
-    n = ctx.scale(400, 6000)
-    budget = ctx.scale(45, 520)
+    ctx.c10_pairs = []
+    ctx.c10_limit = ctx.scale(1500, 12000)
+    n = ctx.scale(260, 6000)
+    budget = ctx.scale(35, 520)
     for it in range(n):
         if time.time() - t_run > budget:
             ctx.notes["stopped_early_at"] = it
@@ -264,6 +330,11 @@ def run(ctx, replay=None):
             if fails:
                 report(ctx, case, fails)
     known_probe(ctx)
+    pairs, ctx.c10_pairs = ctx.c10_pairs, None
+    ctx.correspond("topological-order(executor, dask threads, controls)", pairs,
+                   branch_key=lambda req, model: (model, min(len(req) // 50, 20)))
+    if ctx.disagreements:
+        ctx.notes["targeted_search"] = "every graph of this run was executed in all those orders and compared (search above)"
 
 
 def known_probe(ctx):
